@@ -245,7 +245,12 @@ def handlePiece (st : State) (args : List String) (impl : List String) : String 
               | .holds => "HOLDS"
               | .notApplicable _ => "HOLDS-NA"
               | .fails why => s!"FAILS {why}")
-          | some (.err _) => "HOLDS-NA"
+          | some (.err _) =>
+            -- C06: an error is a permitted outcome only when the head of the fallback list does not apply
+            (match c.fallback.head?, c.unknown with
+              | some .skip, _ => "FAILS error-despite-skip-fallback"
+              | some .unknown, some _ => "FAILS error-despite-unknown-fallback"
+              | _, _ => "HOLDS-NA")
           | _ => "FAILS panic"
       s!"{model} || {verdict}"
     | _, _, _ => "BAD-OP"
@@ -596,7 +601,16 @@ def encVerdict (which : String) (tk : Tokenizer Float) (ext : Ext) (t : Bytes) (
           let specialIds := tk.specials.map (·.id)
           let got := ids.filter fun i => specialIds.contains i && !isVocab i && encoderUnknown tk != some i && !pads.contains i
           if !tk.config.processing.isEmpty then "HOLDS-NA"
-          else if expected.filter (fun i => !isVocab i && encoderUnknown tk != some i) == got then "HOLDS" else "FAILS specials-sequence"
+          else if expected.filter (fun i => !isVocab i && encoderUnknown tk != some i) != got then "FAILS specials-sequence"
+          else
+            -- the unknown token's id can also come from the fallback, so it is counted instead of aligned:
+            -- every recognized occurrence of the unknown special (recognized in both modes) yields its id
+            match encoderUnknown tk with
+            | some u =>
+              if isVocab u then "HOLDS"
+              else if (ids.filter (· == u)).length < (expected.filter (· == u)).length then "FAILS unknown-special-not-recognized"
+              else "HOLDS"
+            | none => "HOLDS"
       else if which == "9" then
         let spec := Spec.seqRes (ps.map (Spec.perPart (pieceSpecOf tk)))
         (match spec with
